@@ -4,4 +4,6 @@ Require Extraction.
 Require Import ExtrOcamlBasic.
 Extraction "../ocaml/pool/model.ml" base_anchor
   new_pool add_local add_remote set_gas_price reset reset_heads reorg_txs
-  pn_get cur_nonce cur_balance pending_count queued_count beat_of is_live.
+  pn_get cur_nonce cur_balance pending_count queued_count beat_of is_live
+  (* the nonce-sorted list, compared on its own with core.txList by the data-structure sweep *)
+  new_txlist tl_add tl_forward tl_filter tl_cap tl_remove tl_ready.
